@@ -56,7 +56,9 @@ def month_length(cal, real, year, month):
     zm = toint_z3(month)
     e = ML(z3.IntVal(CAL_ID[cal]), toint_z3(year), zm)
     if cal == "hijri":
-        p._add(z3.And(e >= 29, e <= 30))  # lunar months
+        # lunar months of 29 or 30 days; the Umm al-Qura table of hijridate also has a handful of
+        # 28- and 31-day months (1343-09, 1345-05, ...): found by standins.selftest
+        p._add(z3.And(e >= 28, e <= 31))
     else:
         # Solar Hijri: six months of 31, five of 30, Esfand 29 or 30
         p._add(z3.If(z3.And(zm >= 1, zm <= 6), e == 31,
